@@ -6,6 +6,7 @@ package main
 
 import (
 	"bufio"
+	"bytes"
 	"context"
 	"encoding/json"
 	"fmt"
@@ -395,6 +396,22 @@ func scenarios(tier string) []Scenario {
 			}
 		}
 	}
+	// PBF container: every document of the sequential tier (one element order;
+	// all orders for <= 3 elements) and the dangling documents, free-running
+	for _, d := range subsets {
+		each := func(p Doc) {
+			out = append(out, Scenario{"pbf", p, keepAll, 1, 0, 1, false})
+			out = append(out, Scenario{"pbf", p, keepBounds, 1, 0, 1, false})
+			q := append(Doc{}, p...)
+			q[len(q)-1].Tagged = true
+			out = append(out, Scenario{"pbf", q, keepTags, 1, 0, 1, false})
+		}
+		if len(d) <= 3 {
+			permutations(d, each)
+		} else {
+			each(d)
+		}
+	}
 	// Filter: sequential, map iteration order as environment choice
 	fb := 1
 	if tier == "thorough" {
@@ -547,9 +564,70 @@ func filterOnce(s Scenario, original *gosm.Data) (string, string) {
 	return got + " | twice:" + setString(dataSet(f2)), viol
 }
 
+// pbfOnce extracts the document from its PBF rendering (free-running: the PBF
+// scanner owns goroutines the scheduler does not control) and compares with
+// the reference model and with the extraction of the XML rendering.
+func pbfOnce(s Scenario) (string, string) {
+	var dp, dx *gosm.Data
+	var ep, ex error
+	if p := try(func() {
+		dp, ep = gosm.ExtractPBF(context.Background(), bytes.NewReader(s.Doc.PBF()), keepFunc(s.Keep), true)
+		dx, ex = gosm.ExtractXML(context.Background(), strings.NewReader(s.Doc.XML()), keepFunc(s.Keep), true)
+	}); p != "" {
+		return "panic: " + p, "panic"
+	}
+	if ep != nil || ex != nil {
+		return fmt.Sprintf("error: pbf %v, xml %v", ep, ex), "error"
+	}
+	got := setString(dataSet(dp))
+	switch {
+	case got != setString(lfp(s.Doc, s.Keep)):
+		return got, "not-least-fixpoint"
+	case !s.Doc.dangling() && dp.Check() != nil:
+		return got, "check-fails"
+	}
+	strip := func(d *gosm.Data) string {
+		c := copyData(d)
+		// identities and references only: the two formats round coordinates
+		// differently, and the property does not speak about tags
+		for _, n := range c.Nodes {
+			n.Lat, n.Lon, n.Tags = 0, 0, nil
+		}
+		for _, w := range c.Ways {
+			w.Tags = nil
+		}
+		for _, r := range c.Relations {
+			r.Tags = nil
+		}
+		return dataString(c)
+	}
+	if a, b := strip(dp), strip(dx); a != b {
+		return got, "pbf-extraction-differs-from-xml-extraction"
+	}
+	return got, ""
+}
+
+func try(f func()) (p string) {
+	defer func() {
+		if r := recover(); r != nil {
+			p = fmt.Sprint(r)
+		}
+	}()
+	f()
+	return ""
+}
+
 func runScenario(idx int, s Scenario, shard int) scenResult {
 	runtime.GOMAXPROCS(s.NProcs)
 	res := scenResult{Idx: idx, Shard: shard, Expected: setString(lfp(s.Doc, s.Keep))}
+	if s.Kind == "pbf" {
+		o, v := pbfOnce(s)
+		res.Execs, res.Outcomes = 1, map[string]int64{o: 1}
+		if v != "" {
+			res.Violations = []sched.Violation{{Symptom: v, Outcome: o}}
+		}
+		return res
+	}
 	var full *gosm.Data
 	if s.Kind == "filter" {
 		var err error
@@ -644,8 +722,8 @@ func main() {
 		return
 	}
 	rep := report.New("C18", tier, "model_checking")
-	rep.Rule = "E3: instrumented encoding/osm (sync.Mutex/RWMutex, errgroup, channel, go rewritten to the vrt shim) under a cooperative scheduler; stateless DFS over all schedules with <= bound preemptions (scheduling point before every lock/unlock/send/recv/close/spawn/wait); sequential tier: every dangling-free document over 3 nodes, 2 ways, 2 relations with <= 4(5) elements in every element order x {KeepAll, KeepBounds, KeepTags on each element}, one worker, bound 1(2); concurrent tier: 10 sharp documents x 2-3 workers x keep functions, bound 1-2(2-3); Filter: map-iteration orders as environment choices, deviation bound 1(2). sequential tier: a second extraction from the same reader must agree; four documents with a dangling reference shared by two elements in every element order. Filter history: the input data set is unchanged afterwards (every field) and a second Filter with another keep function on the same input is its least fixpoint. Oracle per execution: Nodes/Ways/Relations = sequential least fixpoint, Check()==nil for dangling-free documents, no panic/deadlock/livelock; Filter = fixpoint, idempotent, closed, subset. Non-trivial = executions with at least one deviation."
-	rep.Assumptions = []string{"ExtractPBF is not explored (osmpbf owns uncontrolled goroutines); it shares extract(), which is", "memory-model effects below the hooked synchronisation operations are covered only by a separate -race pass", "the free-running package's outcome must be among the explored outcomes (shim conformance)"}
+	rep.Rule = "E3: instrumented encoding/osm (sync.Mutex/RWMutex, errgroup, channel, go rewritten to the vrt shim) under a cooperative scheduler; stateless DFS over all schedules with <= bound preemptions (scheduling point before every lock/unlock/send/recv/close/spawn/wait); sequential tier: every dangling-free document over 3 nodes, 2 ways, 2 relations with <= 4(5) elements in every element order x {KeepAll, KeepBounds, KeepTags on each element}, one worker, bound 1(2); concurrent tier: 10 sharp documents x 2-3 workers x keep functions, bound 1-2(2-3); Filter: map-iteration orders as environment choices, deviation bound 1(2). sequential tier: a second extraction from the same reader must agree; four documents with a dangling reference shared by two elements in every element order. PBF: the same documents (all element orders up to 3 elements) written as OSM PBF by an independent minimal writer and extracted with ExtractPBF, free-running: least fixpoint, Check, and the same identities and references as the XML extraction. Filter history: the input data set is unchanged afterwards (every field) and a second Filter with another keep function on the same input is its least fixpoint. Oracle per execution: Nodes/Ways/Relations = sequential least fixpoint, Check()==nil for dangling-free documents, no panic/deadlock/livelock; Filter = fixpoint, idempotent, closed, subset. Non-trivial = executions with at least one deviation."
+	rep.Assumptions = []string{"ExtractPBF is exercised free-running only (osmpbf owns goroutines the scheduler does not control); it shares extract(), which is", "memory-model effects below the hooked synchronisation operations are covered only by a separate -race pass", "the free-running package's outcome must be among the explored outcomes (shim conformance)"}
 	sc := scenarios(tier)
 	rep.Set("scenarios", len(sc))
 	self, _ := os.Executable()
